@@ -450,4 +450,138 @@ theorem classifyData_meas_last {f : List Text} {m : Meas} (h : classifyData f = 
     · exact h5
   · rw [← h]; exact h6
 
+/-! ### counting data points per invocation (resume) -/
+
+/-- number of written data points of (run, invocation) -/
+def cnt (ds : List WDP) (r i : Nat) : Nat := (ds.filter (fun d => d.run = r && d.inv = i)).length
+
+theorem countInv_map_toDP (ds : List WDP) (r i : Nat) : countInv (ds.map WDP.toDP) r i = cnt ds r i := by
+  unfold countInv cnt
+  induction ds with
+  | nil => rfl
+  | cons d ds ih =>
+    simp only [List.map_cons, List.filter_cons, WDP.toDP] at ih ⊢
+    split <;> simp [ih]
+
+theorem countInv_append (a b : List DP) (r i : Nat) : countInv (a ++ b) r i = countInv a r i + countInv b r i := by
+  simp [countInv, List.filter_append]
+
+theorem cnt_append (a b : List WDP) (r i : Nat) : cnt (a ++ b) r i = cnt a r i + cnt b r i := by
+  simp [cnt, List.filter_append]
+
+theorem cnt_invDPs (val : Nat → Nat → Nat → Text) (c : RunCfg) (a r i : Nat) :
+    cnt (invDPs val c a) r i = if c.run = r ∧ a = i then c.iterations else 0 := by
+  unfold cnt invDPs
+  by_cases h : c.run = r ∧ a = i
+  · rw [if_pos h]
+    rw [List.filter_eq_self.mpr]
+    · simp
+    · intro d hd
+      obtain ⟨j, _, rfl⟩ := List.mem_map.mp hd
+      simp [h.1, h.2]
+  · rw [if_neg h]
+    rw [List.filter_eq_nil_iff.mpr]
+    · rfl
+    · intro d hd
+      obtain ⟨j, _, rfl⟩ := List.mem_map.mp hd
+      simp only [Bool.and_eq_true, decide_eq_true_eq]
+      exact h
+
+theorem cnt_flatMap_inv (val : Nat → Nat → Nat → Text) (c : RunCfg) (r i : Nat) : ∀ (is : List Nat),
+    cnt (is.flatMap (invDPs val c)) r i = if c.run = r then c.iterations * is.count i else 0 := by
+  intro is
+  induction is with
+  | nil => simp [cnt]
+  | cons a as ih =>
+    rw [List.flatMap_cons, cnt_append, ih, cnt_invDPs]
+    by_cases hr : c.run = r
+    · by_cases ha : a = i
+      · subst ha; simp [hr, Nat.mul_add, Nat.add_comm]
+      · simp [hr, ha, List.count_cons]
+    · simp [hr]
+
+theorem count_todo (m N i : Nat) :
+    ((List.range N).filterMap (fun j => if m ≤ j then some (j + 1) else none)).count i
+      = if m < i ∧ i ≤ N then 1 else 0 := by
+  induction N with
+  | zero =>
+    simp only [List.range_zero, List.filterMap_nil, List.count_nil]
+    split
+    · omega
+    · rfl
+  | succ N ih =>
+    rw [List.range_succ, List.filterMap_append, List.count_append, ih]
+    simp only [List.filterMap_cons, List.filterMap_nil]
+    by_cases hm : m ≤ N
+    · simp only [hm, ↓reduceIte, List.count_cons, List.count_nil]
+      by_cases h1 : N + 1 = i
+      · subst h1
+        simp only [BEq.rfl, ↓reduceIte]
+        rw [if_neg (by omega), if_pos (by omega)]
+      · have : (N + 1 == i) = false := by simpa using h1
+        simp only [this, Bool.false_eq_true, ↓reduceIte, Nat.add_zero]
+        by_cases h2 : m < i ∧ i ≤ N
+        · rw [if_pos h2, if_pos (by omega)]
+        · rw [if_neg h2, if_neg (by omega)]
+    · simp only [hm, ↓reduceIte, List.count_nil, Nat.add_zero]
+      rw [if_neg (by omega), if_neg (by omega)]
+
+theorem foldl_max_ge (r : Nat) : ∀ (l : List DP) (m : Nat),
+    m ≤ l.foldl (fun m d => if d.run = r then max m d.inv else m) m ∧
+    ∀ d ∈ l, d.run = r → d.inv ≤ l.foldl (fun m d => if d.run = r then max m d.inv else m) m := by
+  intro l
+  induction l with
+  | nil => intro m; exact ⟨Nat.le_refl _, fun d hd => by cases hd⟩
+  | cons x xs ih =>
+    intro m
+    simp only [List.foldl_cons]
+    obtain ⟨h1, h2⟩ := ih (if x.run = r then max m x.inv else m)
+    refine ⟨?_, ?_⟩
+    · refine Nat.le_trans ?_ h1
+      split
+      · exact Nat.le_max_left _ _
+      · exact Nat.le_refl _
+    · intro d hd hr
+      rcases List.mem_cons.mp hd with rfl | hd
+      · refine Nat.le_trans ?_ h1
+        rw [if_pos hr]; exact Nat.le_max_right _ _
+      · exact h2 d hd hr
+
+theorem countInv_zero_above (loaded : List DP) (r i : Nat) (h : maxInv loaded r < i) : countInv loaded r i = 0 := by
+  unfold countInv
+  rw [List.filter_eq_nil_iff.mpr]
+  · rfl
+  · intro d hd
+    simp only [Bool.and_eq_true, decide_eq_true_eq]
+    rintro ⟨hr, hi⟩
+    have := (foldl_max_ge r loaded 0).2 d hd hr
+    unfold maxInv at h
+    omega
+
+theorem cnt_other_runs (val : Nat → Nat → Nat → Text) (loaded : List DP) (r i : Nat) : ∀ (cs : List RunCfg),
+    (∀ c' ∈ cs, c'.run ≠ r) → cnt (cs.flatMap (fun c => (todo loaded c).flatMap (invDPs val c))) r i = 0 := by
+  intro cs
+  induction cs with
+  | nil => intro _; rfl
+  | cons c cs ih =>
+    intro h
+    rw [List.flatMap_cons, cnt_append, cnt_flatMap_inv, if_neg (h c (List.mem_cons_self ..)),
+      ih (fun c' hc' => h c' (List.mem_cons_of_mem _ hc'))]
+
+theorem cnt_resume (val : Nat → Nat → Nat → Text) (loaded : List DP) (i : Nat) : ∀ (cfg : List RunCfg),
+    cfg.Pairwise (fun a b => a.run ≠ b.run) → ∀ c ∈ cfg,
+    cnt (resumeDPs val loaded cfg) c.run i = c.iterations * (todo loaded c).count i := by
+  intro cfg
+  unfold resumeDPs
+  induction cfg with
+  | nil => intro _ c hc; cases hc
+  | cons c0 cs ih =>
+    intro hp c hc
+    rw [List.pairwise_cons] at hp
+    rw [List.flatMap_cons, cnt_append, cnt_flatMap_inv]
+    rcases List.mem_cons.mp hc with rfl | hc
+    · rw [if_pos rfl, cnt_other_runs val loaded _ i cs (fun c' hc' => fun e => hp.1 c' hc' e.symm)]
+      rfl
+    · rw [if_neg (hp.1 c hc), ih hp.2 c hc, Nat.zero_add]
+
 end RB.Loader
